@@ -93,3 +93,13 @@ example :
       .begin 1, .tryLock 1]
     s.phase 0 = .closing ∧ s.phase 1 = .refused ∧ s.dataVer = 2 ∧
       ((s.run [.release 0, .begin 1, .tryLock 1]).phase 1 = .recovering) := by decide
+
+/-- **C19 (reopen after a failed open).** When `build()` fails after the lock was taken (recovery
+error), the lock is free again and the next attempt is not refused. -/
+theorem C19_reopen_after_failed_open (ops : List LOp) (j i : Nat)
+    (hj : (LState.run {} ops).phase j = .recovering) (hi : (LState.run {} ops).phase i = .starting) (hij : i ≠ j) :
+    (((LState.run {} ops).step (.failOpen j)).step (.tryLock i)).phase i = .recovering := by
+  have h := linv_run ops {} linv_init
+  have hh : (LState.run {} ops).holder = some j := (h.liveIff j).mp (by rw [hj]; rfl)
+  simp only [LState.step, hj]
+  simp [hij, hi, hh]
